@@ -241,21 +241,22 @@ func (u *Unit) builtin(st *State, fr *Frame, in *ssa.Call, bi *ssa.Builtin, args
 				return nil, true
 			}
 		}
-		if !isByteType(d.R.Elem) || d.R.concrete {
-			u.unsupported("copy of non-byte or concrete-list slices")
+		es := scalarSort(d.R.Elem)
+		if es == nil || d.R.concrete {
+			u.unsupported("copy of non-scalar or concrete-list slices")
 			return nil, false
 		}
 		var src Mem
 		if sR.concrete {
 			rs := u.rstate(st, sR)
-			src = zeroMem{BVSort(8)}
+			src = zeroMem{es}
 			for i, e := range rs.elems {
 				src = storeMem{src, IntK(int64(i)), e.(IntV).T}
 			}
 		} else {
-			src = u.compMem(st, sR, "", BVSort(8))
+			src = u.compMem(st, sR, "", es)
 		}
-		u.setComp(st, d.R, "", copyMem{u.compMem(st, d.R, "", BVSort(8)), d.Off, n, src, sOff})
+		u.setComp(st, d.R, "", copyMem{u.compMem(st, d.R, "", es), d.Off, n, src, sOff})
 		return one(IntV{n, true})
 	case "append":
 		et := in.Type().Underlying().(*types.Slice).Elem()
@@ -573,7 +574,7 @@ func (u *Unit) callByContract(st *State, fr *Frame, in *ssa.Call, fn *ssa.Functi
 		env := u.paramEnv(st, fn, args, entry)
 		g := env.formula(cl, true)
 		name := fmt.Sprintf("%s#call-pre:%s@%s", fnKey(u.fn), key+"."+cl.Label, site)
-		u.oblige(st, name, "pre", append([]string{"support"}, cl.Tags...), g, cl.Text)
+		u.oblige(st, name, "pre", u.invTags(cl), g, cl.Text)
 		st.assume(g)
 	}
 	// havoc the modifies set
